@@ -20,8 +20,10 @@ Oracle, per base (evaluated on the elementary segments between all interval ends
 Values: exact for the dyadic value class (multiples of 1/8 in [-1, 3]); for the float class a tolerance of
 k ulp (k = inputs covering the base) and presence is a don't-care within that tolerance of the threshold / of 0.
 
-`blocked`: if the merged stream is empty the bigWig writer does not terminate (C13 owns that); the bigWig
-merge is then skipped (tag) and, if it was the case's primary output, the case is counted as blocked by C13.
+`blocked`: whether the bigWig *writer* copes with an empty merged stream (it used to hang, then to panic) is
+C13's business: that merge runs with a 5 s budget and a hang / panic / error exit there is tagged and, if the
+bigWig was the case's primary output, the case is counted as blocked by C13.  If it succeeds the (empty) bigWig is
+checked like any other.
 """
 import os
 import random
@@ -388,12 +390,24 @@ def _case(c, seed, tier, index, cwd):
     ct.write(cwd, "inputs.txt", "".join("in%d.bw\n" % i for i in range(k)))
     ct.write(cwd, "inputs_rest.txt", "".join("in%d.bw\n" % i for i in range(1, k)))
 
-    def merge(out_name, out_type, documented_name):
-        """Run one merge. Returns the output file name, or None."""
+    def merge(out_name, out_type, documented_name, empty_stream=False):
+        """Run one merge. Returns the output file name, or None (reported), or "blocked" (empty stream only).
+
+        empty_stream: the bedGraph merge of the same inputs/settings produced no interval.  Whether the bigWig
+        *writer* copes with a file without data is C13's business: a hang (short 5 s budget, not re-run), a panic
+        or an error exit there is counted as blocked by C13, not as a C15 verdict."""
         argv = merge_argv(cwd, o, k, out_name, out_type)
-        r = ct.run(argv, cwd)
-        if not c.ran(r, "bigwigmerge"):
-            return None
+        if empty_stream:
+            r = ct.run(argv, cwd, timeout=5)
+            c.count("tool_invocations")
+            c.log.append(r.cmdline + "   -> rc=%s%s" % (r.rc, " TIMEOUT(5s)" if r.timed_out else ""))
+            if r.timed_out or r.rc != 0:
+                c.tag("bigwig_writer_fails_on_empty_stream(C13):" + ("hang" if r.timed_out else ("panic" if r.panicked() else "error_exit")))
+                return "blocked"
+        else:
+            r = ct.run(argv, cwd)
+            if not c.ran(r, "bigwigmerge"):
+                return None
         c.count("merges")
         if r.panicked():
             c.viol("panic", "bigwigmerge", detail(rc=r.rc, stderr=r.err[:800]))
@@ -432,23 +446,24 @@ def _case(c, seed, tier, index, cwd):
             c.count("output_intervals", sum(len(v) for v in bg.values()))
             compare_function(c, g, bg, bad_chroms, "bedgraph", detail)
     # ---- bigWig-type merge
-    if bg is not None and not any(bg.values()):
-        c.tag("bigwig_merge_skipped:empty_stream(C13)")
+    if bg is None:
+        # no bedGraph reference (that merge itself failed and was reported): nothing to compare the bigWig with
+        c.tag("bigwig_merge_skipped:no_bedgraph_reference")
+        return
+    empty = not any(bg.values())
+    if empty:
+        c.tag("merged_stream_empty")
+    if not prim_is_bg:
+        bw_file = merge(o["name"], o["output_type"], documented, empty_stream=empty)
+        if bw_file is None and documented and not c.timeouts:
+            c.tag("fallback:--output-type")
+            bw_file = merge("out_fallback.dat", "bigwig", False, empty_stream=empty)
+    else:
+        bw_file = merge("second.dat", "bigwig", False, empty_stream=empty)
+    if bw_file == "blocked":
         if not prim_is_bg and not c.violations:
             c.blocked = "C13"
         return
-    if bg is None:
-        # no bedGraph reference (that merge itself failed and was reported): do not run the bigWig writer blindly,
-        # it does not terminate on an empty stream
-        c.tag("bigwig_merge_skipped:no_bedgraph_reference")
-        return
-    if not prim_is_bg:
-        bw_file = merge(o["name"], o["output_type"], documented)
-        if bw_file is None and documented and not c.timeouts:
-            c.tag("fallback:--output-type")
-            bw_file = merge("out_fallback.dat", "bigwig", False)
-    else:
-        bw_file = merge("second.dat", "bigwig", False)
     if c.timeouts or not bw_file:
         return
     r = ct.run([ct.bin_path("bigwigtobedgraph"), bw_file, "merged_bw.bedGraph", "-t", "1"], cwd)
